@@ -82,7 +82,7 @@ Init == /\ lo \in Int /\ hi \in Int /\ peers \in 1..6
         /\ TMIN <= lo /\ lo <= TMAX /\ TMIN <= hi /\ hi <= TMAX
         /\ lo <= hi                    \* reversed ranges: finding F1
         /\ hi - lo <= MAXELEMS
-        /\ ~NearMax                    \* finding F11 (never true when T = C)
+        /\ ~NearMax                    \* finding F1-nearmax (never true when T = C)
         /\ Compute
 (* without the carve-out for reversed ranges: Apalache must report the F1 counterexample *)
 InitAll == /\ lo \in Int /\ hi \in Int /\ peers \in 1..6
